@@ -71,7 +71,7 @@ fn scenario(ctx: &Ctx, idx: u64) -> Report {
         let n = match horizon_class {
             0 | 1 => rng.gen_range(2..=9usize),
             2 => rng.gen_range(2..=ctx.tier.pick(4usize, 6)),
-            _ => rng.gen_range(2..=4usize),
+            _ => rng.gen_range(2..=3usize),
         };
         let ih: Id = gen::rand_id(&mut rng);
         let clustered = rng.gen_bool(0.4);
@@ -82,9 +82,15 @@ fn scenario(ctx: &Ctx, idx: u64) -> Report {
         net.set_send_yield(*[0.0, 0.0, 0.3, 1.0].choose(&mut rng).unwrap());
 
         // in IPv6 networks every fourth node lives at an IPv4-mapped address (dual-stack socket)
+        // some nodes share a machine: same IP address as the previous node, another port
+        let shared_ip = rng.gen_bool(0.35);
         let addrs: Vec<SocketAddr> = (0..n)
             .map(|i| {
-                if v6 && i % 4 == 3 {
+                if shared_ip && i % 2 == 1 {
+                    let mut a = node_addr(v6, 10 + i as u32 - 1);
+                    a.set_port(6882 + i as u16);
+                    a
+                } else if v6 && i % 4 == 3 {
                     SocketAddr::new(std::net::Ipv4Addr::new(10, 0, 0, 10 + i as u8).to_ipv6_mapped().into(), 6881)
                 } else {
                     node_addr(v6, 10 + i as u32)
@@ -102,6 +108,9 @@ fn scenario(ctx: &Ctx, idx: u64) -> Report {
             });
             cfg.read_only = false;
             cfg.announce_port = if rng.gen_bool(0.5) { Some(rng.gen_range(1..65535)) } else { None };
+            if shared_ip {
+                report.count("nodes_sharing_an_ip_address_with_another_node");
+            }
             cfg.nodes = addrs.iter().enumerate().filter(|(j, _)| *j != i).map(|(_, a)| *a).collect();
             nodes.push(NodeInfo {
                 dht: spawn_node(&net, &cfg),
